@@ -1,21 +1,21 @@
 #!/bin/sh
-# harness/run_mutant.sh <dir with patch.diff> <check id>...
-# Runs the checks against the mutant WITHOUT touching /repo (sub-agents read /repo concurrently):
-# a scratch worktree of /repo HEAD with the patch applied, VERIF_REPO/VERIF_BUILD pointing at it.
+# harness/run_mutant.sh <ABSOLUTE dir with patch.diff> <check id>...
+# Runs the checks against the mutant WITHOUT touching /repo or /verif: a scratch worktree of /repo HEAD with the patch
+# applied, and a scratch COPY of /verif (/var/tmp/verif_mut; the translator rewrites Model/Generated.lean from the
+# mutant's source, which must not happen in the main tree while other checks run).
 # (Equivalent to: git -C /repo apply <patch>; ./check ...; git -C /repo checkout -- .)
 d=$1; shift
 id=$(basename $d); wt=/tmp/rm_$id
+V=${VERIF_MUT_HOME:-/var/tmp/verif_mut}
+mkdir -p $V
+rsync -a --delete --exclude .git --exclude evidence --exclude .build_mut /verif/ $V/
+mkdir -p $V/evidence
 git -C /repo worktree remove --force $wt 2>/dev/null
 git -C /repo worktree add --detach $wt HEAD >/dev/null 2>&1 || exit 2
 ( cd $wt && git apply $d/patch.diff ) || { echo "$id: patch does not apply"; git -C /repo worktree remove --force $wt; exit 2; }
-mkdir -p /verif/.build_mut
-# seed the mutant build dir with the regular cargo cache so that only the changed crate rebuilds
-[ -d /verif/.build_mut/target ] || cp -r /verif/.build/target /verif/.build_mut/target 2>/dev/null
-cd /verif
+cd $V
 for cid in "$@"; do
-  out=$(VERIF_REPO=$wt VERIF_BUILD=/verif/.build_mut VERIF_EVIDENCE=/verif/.build_mut/evidence VERIF_SEED=${VERIF_SEED:-7} ./check $cid --tier ${TIER:-quick} 2>/dev/null); rc=$?
+  out=$(VERIF_REPO=$wt VERIF_BUILD=$V/.build VERIF_EVIDENCE=$V/evidence VERIF_SEED=${VERIF_SEED:-7} ./check $cid --tier ${TIER:-quick} 2>/dev/null); rc=$?
   echo "== $id vs $cid: rc=$rc"; echo "$out" | grep -a '^VIOLATION' | cut -c1-260 | head -4
 done
 git -C /repo worktree remove --force $wt
-# the translator may have regenerated Generated.lean from the mutant: regenerate from /repo
-python3 harness/translate.py >/dev/null
